@@ -64,6 +64,38 @@ def parseMutOp (dflt : Int) (j : Json) : Except String (Option (MutOp Int)) := d
     pure (some (.populate at_ (treeArgOfJson (← field j "f")) (fun _ cur av => cur + av) (fun _ => Inner.recurse)))
   | _ => pure none
 
+/-- in-place arithmetic on a leaf fiber, expressed through the modelled mutators from the pre-state:
+    `f += s` is `iterShapeRef()` with `p += s` (dense references over the shape, every visited element
+    written), `f *= s` rewrites the non-default payloads, `f *= g` writes the products at the coordinates
+    both fibers present -/
+def parseArith (dflt : Int) (d : Nat) (tb : T (d + 1)) (j : Json) : Except String (Option (MutOp Int)) := do
+  let k ← fStr j "k"
+  let at_ := match j.getObjVal? "at" with | .ok a => (asInts a).toOption.getD [] | _ => []
+  match locate d tb at_ with
+  | some ⟨0, leaf⟩ =>
+    let l := (show List (Int × T 0) from leaf)
+    let cur (c : Int) : Int := match lookup l c with | some v => (show Int from v) | none => dflt
+    match k with
+    | "iadd" =>
+      let s ← fInt j "s"
+      match (fNat j "shape").toOption with
+      | none => pure none
+      | some n =>
+        let cs : List Int := (List.range n).map Int.ofNat
+        pure (some (.denseRef at_ cs (cs.map (fun c => (c, cur c + s)))))
+    | "imul" =>
+      let s ← fInt j "s"
+      pure (some (.updPayloads at_ (fun v => if v = dflt then v else v * s)))
+    | "imulf" =>
+      let g ← parseTree 1 (← field j "f")
+      let gl := (show List (Int × T 0) from g)
+      let both := l.filter (fun e => (show Int from e.2) != dflt &&
+        (match lookup gl e.1 with | some gv => (show Int from gv) != dflt | none => false))
+      let w := both.map (fun e => (e.1, (show Int from e.2) * (match lookup gl e.1 with | some gv => (show Int from gv) | none => 0)))
+      pure (some (.denseRef at_ (both.map (·.1)) w))
+    | _ => pure none
+  | _ => pure none
+
 def handleC01 (j : Json) : Except String Verdict := do
   let D ← fNat j "d"
   let dflt := fIntD j "dflt" 0
@@ -98,7 +130,11 @@ def handleC01 (j : Json) : Except String Verdict := do
       | .error _ => pure ()
       | .ok tb =>
         if wfB (d + 1) tb then
-          match (← parseMutOp dflt opJ) with
+          let parsed ← (do
+            match (← parseMutOp dflt opJ) with
+            | some op => pure (some op)
+            | none => parseArith dflt d tb opJ)
+          match parsed with
           | none => if !tags.contains "unmodelled" then tags := "unmodelled" :: tags
           | some op =>
             let (mt, mo) := mstep dflt d tb op
